@@ -1280,10 +1280,10 @@ CMR_ERROR CMRtwosumDecomposeFirst(CMR* cmr, CMR_CHRMAT* matrix, CMR_SEPA* sepa, 
   /* Allocate missing arrays on stack. */
   bool hasFirstRowsOrigin = firstRowsOrigin;
   if (!hasFirstRowsOrigin)
-    CMR_CALL( CMRallocStackArray(cmr, &firstRowsOrigin, matrix->numRows) );
+    CMR_CALL( CMRallocStackArray(cmr, &firstRowsOrigin, matrix->numRows + 1) ); /* + marker row */
   bool hasFirstColumnsOrigin = firstColumnsOrigin;
   if (!hasFirstColumnsOrigin)
-    CMR_CALL( CMRallocStackArray(cmr, &firstColumnsOrigin, matrix->numColumns) );
+    CMR_CALL( CMRallocStackArray(cmr, &firstColumnsOrigin, matrix->numColumns + 2) ); /* + marker columns */
   bool hasRowsToFirst = rowsToFirst;
   if (!hasRowsToFirst)
     CMR_CALL( CMRallocStackArray(cmr, &rowsToFirst, matrix->numRows) );
@@ -1430,10 +1430,10 @@ CMR_ERROR CMRtwosumDecomposeSecond(CMR* cmr, CMR_CHRMAT* matrix, CMR_SEPA* sepa,
   /* Allocate missing arrays on stack. */
   bool hasSecondRowsOrigin = secondRowsOrigin;
   if (!hasSecondRowsOrigin)
-    CMR_CALL( CMRallocStackArray(cmr, &secondRowsOrigin, matrix->numRows) );
+    CMR_CALL( CMRallocStackArray(cmr, &secondRowsOrigin, matrix->numRows + 1) ); /* + marker row */
   bool hasSecondColumnsOrigin = secondColumnsOrigin;
   if (!hasSecondColumnsOrigin)
-    CMR_CALL( CMRallocStackArray(cmr, &secondColumnsOrigin, matrix->numColumns) );
+    CMR_CALL( CMRallocStackArray(cmr, &secondColumnsOrigin, matrix->numColumns + 2) ); /* + marker columns */
   bool hasRowsToSecond = rowsToSecond;
   if (!hasRowsToSecond)
     CMR_CALL( CMRallocStackArray(cmr, &rowsToSecond, matrix->numRows) );
@@ -2096,10 +2096,10 @@ CMR_ERROR CMRdeltasumDecomposeFirst(CMR* cmr, CMR_CHRMAT* matrix, CMR_SEPA* sepa
   /* Allocate missing arrays on stack. */
   bool hasFirstRowsOrigin = firstRowsOrigin;
   if (!hasFirstRowsOrigin)
-    CMR_CALL( CMRallocStackArray(cmr, &firstRowsOrigin, matrix->numRows) );
+    CMR_CALL( CMRallocStackArray(cmr, &firstRowsOrigin, matrix->numRows + 1) ); /* + marker row */
   bool hasFirstColumnsOrigin = firstColumnsOrigin;
   if (!hasFirstColumnsOrigin)
-    CMR_CALL( CMRallocStackArray(cmr, &firstColumnsOrigin, matrix->numColumns) );
+    CMR_CALL( CMRallocStackArray(cmr, &firstColumnsOrigin, matrix->numColumns + 2) ); /* + marker columns */
   bool hasRowsToFirst = rowsToFirst;
   if (!hasRowsToFirst)
     CMR_CALL( CMRallocStackArray(cmr, &rowsToFirst, matrix->numRows) );
@@ -2255,10 +2255,10 @@ CMR_ERROR CMRdeltasumDecomposeSecond(CMR* cmr, CMR_CHRMAT* matrix, CMR_SEPA* sep
   /* Allocate missing arrays on stack. */
   bool hasSecondRowsOrigin = secondRowsOrigin;
   if (!hasSecondRowsOrigin)
-    CMR_CALL( CMRallocStackArray(cmr, &secondRowsOrigin, matrix->numRows) );
+    CMR_CALL( CMRallocStackArray(cmr, &secondRowsOrigin, matrix->numRows + 1) ); /* + marker row */
   bool hasSecondColumnsOrigin = secondColumnsOrigin;
   if (!hasSecondColumnsOrigin)
-    CMR_CALL( CMRallocStackArray(cmr, &secondColumnsOrigin, matrix->numColumns) );
+    CMR_CALL( CMRallocStackArray(cmr, &secondColumnsOrigin, matrix->numColumns + 2) ); /* + marker columns */
   bool hasRowsToSecond = rowsToSecond;
   if (!hasRowsToSecond)
     CMR_CALL( CMRallocStackArray(cmr, &rowsToSecond, matrix->numRows) );
